@@ -6,6 +6,7 @@ Symbolic world: the WCS is a header stand-in with symbolic real CDELT / PC / CRP
 absent), symbolic image height and pixel.  Real world (replays, vacuity twins): the SAME scenario runs with a genuine
 astropy.wcs.WCS built from the model's numbers and sky coordinates from wcs_pix2world, which validates the stand-in.
 """
+from vlib.core import soft_attr as core_u
 import numpy as _np
 import z3
 
@@ -222,7 +223,7 @@ def cases(tier):
 
 
 def check(run):
-    run.uses(ti._wcs_to_parity_sign, ti._flip_wcs_parity, ti.Image.get_parity_sign, ti.Image.flip_parity, ti.Image.ensure_negative_parity,
+    run.uses(core_u(ti, "_wcs_to_parity_sign"), core_u(ti, "_flip_wcs_parity"), ti.Image.get_parity_sign, ti.Image.flip_parity, ti.Image.ensure_negative_parity,
              ti.ImageDescription.get_parity_sign, ti.ImageDescription.flip_parity, ti.ImageDescription.ensure_negative_parity)
     run.bound(wcs="symbolic real CDELT1/2, PC1_1..PC2_2 (off-diagonals present or absent), CRPIX1/2, det != 0 — any rotation, scale, skew, reference pixel, both starting parities",
               height="symbolic 1..4096", pixel="symbolic real (x, y)", identity="polynomial identity over the reals (QF_NRA), no bound on the coefficients")
